@@ -458,3 +458,24 @@ def bounded_loader_roundtrip(pack, pid):
                          'kind': 'bounded native (kundur_full, tf=0.4: time column and every 7th variable compared with the in-memory series)'})
     if bad:
         pack.violation(name, {'bounded': True, 'inputs': bad, 'native_cmd': 'TDS.run with output; TDSData(<result>); compare with dae.ts'})
+
+
+
+def replay_to_output_addr(obligation, model, meta):
+    """native run of the real Output.to_output_addr on a stub: contiguous, scattered and partially stored addresses, both codes"""
+    from types import SimpleNamespace
+    import numpy as np
+    from andes.models.misc.output import Output
+    xidx, yidx = np.array([0, 2, 3, 7, 8, 9]), np.array([1, 2, 3, 4, 5, 6, 8, 10, 11])
+    for code, addr in (('x', [2, 3]), ('x', [0, 3, 9]), ('x', [7, 1, 9]), ('y', [1, 2, 3, 6, 8]), ('y', [10, 1]), ('y', [7]), ('x', [5])):
+        from contracts.packutil import Stub
+        stub = Stub(_cls=Output, xidx=xidx, yidx=yidx)
+        item = SimpleNamespace(a=np.array(addr), v_code=code, owner=SimpleNamespace(class_name='M'), name='v')
+        got = sorted(int(i) for i in Output.to_output_addr(stub, item))
+        stored = xidx if code == 'x' else yidx
+        want = sorted(int(j) for j in range(len(stored)) if stored[j] in addr)
+        if got != want:
+            return {'confirmed': True, 'inputs': {'stored %sidx' % code: stored.tolist(), 'variable addresses': addr},
+                    'observed': 'returned columns %r, the variable is stored in columns %r' % (got, want),
+                    'native_cmd': 'Output.to_output_addr(stub, item)'}
+    return {'confirmed': False, 'tried': 7}
